@@ -229,7 +229,10 @@ def r_append(ctx):
         rets = paths.ret_assigns(g)
         app = [(b, t) for b, k2, t in rets if paths.err_variant(t) == 'InvalidItemAppend']
         prop = [(b, t) for b, k2, t in rets if paths.err_variant(t) != 'InvalidItemAppend' and is_err(t)]
-        in_err_arm = True
+        # ... and nowhere else: the function itself must not return InvalidItemAppend on its own (a refusal that does not come
+        # from LMDB's KeyExist answer rejects legal appends)
+        own = [(b, t) for b, k2, t in paths.ret_assigns(f) if k2 == 'err' and paths.err_variant(t) == 'InvalidItemAppend']
+        in_err_arm = not own
     guards = []
     for b, t in app:
         for s0, x0, e in paths.controlling_conds(g, b):
